@@ -39,6 +39,9 @@ type Opts struct {
 	NoClasses  bool
 	MinTime    uint64
 	EventHeavy bool
+	// HugeProgram > 0: the block declares one extra Sierra class whose program has that many felts
+	// (with zeros in it).
+	HugeProgram int
 }
 
 type Gen struct {
@@ -184,6 +187,27 @@ func (g *Gen) Next(t *tape.Tape, parent *Block, o Opts) *Block {
 
 	if !o.Empty {
 		g.genDiff(t, pre, diff, classes, o, num, isV2)
+	}
+	if o.HugeProgram > 0 {
+		c, h := g.sierraClass(o.Salt*1000 + num*16 + 15)
+		if _, ok := pre.Classes[h]; !ok && classes[h] == nil {
+			prog := make([]felt.Felt, o.HugeProgram)
+			prog[0], prog[1] = f(1), f(6) // version 1.6.0: the patch component is the felt zero
+			for i := 3; i < len(prog); i++ {
+				if i%7 != 0 {
+					prog[i] = f(uint64(i))
+				}
+			}
+			c.Program = prog
+			var casm felt.Felt
+			if isV2 {
+				casm = c.Compiled.Hash(core.HashVersionV2)
+			} else {
+				casm = c.Compiled.Hash(core.HashVersionV1)
+			}
+			diff.DeclaredV1Classes[h] = &casm
+			classes[h] = c
+		}
 	}
 	if !o.Empty {
 		post.Apply(num, o.Version, diff, classes)
